@@ -217,6 +217,7 @@ func (ra *RouteAuthenticator) Authenticate(req *http.Request, route *MatchedRout
 	}
 	// iterate in proper order
 	var lastResult interface{}
+	var nilPrincipal bool
 	for _, scheme := range ra.Schemes {
 		if authenticator, ok := ra.Authenticator[scheme]; ok {
 			applies, princ, err := authenticator.Authenticate(&security.ScopedAuthRequest{
@@ -231,9 +232,19 @@ func (ra *RouteAuthenticator) Authenticate(req *http.Request, route *MatchedRout
 				return true, nil, err
 			}
 			lastResult = princ
+			if princ == nil {
+				// accepted without a principal: the AND yields none, whatever order the schemes are consulted in
+				nilPrincipal = true
+			}
+		} else {
+			// nobody can check this scheme: the AND cannot be satisfied (skipping it would fail open)
+			return false, nil, nil
 		}
 	}
 	route.Authenticator = ra
+	if nilPrincipal {
+		return true, nil, nil
+	}
 	return true, lastResult, nil
 }
 
